@@ -8,11 +8,14 @@ META = {
     "level": "exploration",
     "rule": ("(a) Codec.decode(silent=True) on: every position x {substitution by B values, deletion, insertion of I values} of a corpus "
              "of valid frames (quick B~40,I~16; thorough B=255,I=256), grammar-aware malformed frames (BodyLength/CheckSum/tag lexemes, "
-             "missing '=', empty fields, swapped header, truncation at each field boundary, wrong BeginString, back-to-back markers) "
+             "missing '=', empty fields, swapped header, truncation at each field boundary, wrong BeginString, back-to-back markers, "
+             "junk prefix + frame missing 1..n final bytes) "
              "and random byte strings biased to SOH '=' digits and the marker; oracle: no exception, 0<=consumed<=len, msg None <=> raw "
              "None, a returned message's raw bytes pass the independent framer and equal its field list; (b) repeated decode as the "
              "read loop does it terminates within len+2 iterations; (c) live socket_read_task fed malformed ++ valid tail (1, 2, many "
-             "reads): task alive, not spinning, reacts to the tail; exact-length body corruptions must deliver the whole tail. "
+             "reads): task alive, not spinning, reacts to the tail; exact-length body corruptions, bad checksums and marker-free junk with "
+             "the first valid frame split over two reads must deliver the whole tail; a wedge is named by the exception decode raises "
+             "on the stuck buffer. "
              "distinct = hash of input bytes; non-trivial = input contains a frame-start marker"),
     "assumptions": ["a frame preceded by marker-free junk is still that frame (C03 judges it)",
                     "the malformed frame is line noise: the valid tail is numbered from the receiver's expected MsgSeqNum"],
